@@ -588,8 +588,16 @@ fn check_c18(gv: &GraphView, h_in: &BTreeMap<String, String>, h_out: &BTreeMap<S
                     _ => {
                         let sup_a = pa.is_none() && is_superseded(gv, a);
                         let sup_b = pb.is_none() && is_superseded(gv, b);
-                        if sup_a || sup_b {
-                            continue; // accepted either way
+                        // A record up!!!down says what DOWN last consumed; it vouches for none of up's files.
+                        // While down is absent (and not itself superseded) it is kept whatever became of up - a
+                        // renamed upstream included: it is what the returning job is judged against. With a
+                        // superseded downstream, or a superseded upstream below a PRESENT downstream (kept until
+                        // the downstream is recorded again, fixes 33f8618 / 806cfb3), both outcomes are accepted.
+                        if sup_b || (sup_a && pb.is_some()) {
+                            continue;
+                        }
+                        if sup_a {
+                            probe(probes, "c18_absent_consumer_below_renamed_upstream");
                         }
                         probe(probes, "c18_absent_edge_records_seen");
                         if h_out.get(k) != Some(val) {
